@@ -41,6 +41,10 @@ CHECKS = {
    text="Seeded search with fault injection on the randomness seam over the informed samplers (direct path-length, rejection, ordered wrapper over either) on R^2..R^8, SE(2), SE(3) with 1-3 starts, 1-3 goals, bounds that do or do not cut the spheroid, cost bounds from 1.0000001x to 100x the focal distance, optional lower bound, 1-1000 iterations, with extreme-draw bursts (hook H1) that force rejection streaks, boundary radii and both ends of the PHS-choice draw. On success: in bounds, heuristicSolnCost strictly below the bound (recomputed independently from the foci as well), not below the lower bound; prolate-hyperspheroid surface points sum to the transverse diameter (1e-9), interior points do not exceed it; getInformedMeasure equals the analytic volume (1e-9, single start/goal); statistical rider: radial chi-square and half-space test of 20000 direct samples mapped back to the unit ball (thresholds beyond p = 1e-14).",
    note="Trusted: the analytic formulas in the harness. A false return (retry exhaustion) is legal and claims nothing. Uniformity is a statistical rider and can miss small biases; overlap density with several PHSs is not judged.",
    technique="deterministic simulation: seeded sampler histories with RNG-draw fault injection (hook H1), analytic oracles, shrinking + replay"),
+ "C16": dict(engine="rngsim", cat="exploration", ref="DESIGN.md 4/C16",
+   text="Seeded search with fault injection over the three constrained spaces (projected, atlas, tangent bundle) on closed-form manifolds (sphere, torus, plane, sphere-and-plane circle; ambient dimension 3-6) with swarm-chosen delta, lambda, tolerance, iteration limit, bounds (containing or cutting the manifold) and an optional obstacle: histories of raw uniform / near / Gaussian sampling, valid-state sampling (1-100 attempts), interpolate, discreteGeodesic, and (12% of cases) RRT / RRTConnect / KPIECE1 / EST planning on top cancelled at a chosen PTC evaluation. Faults: F7 - the harness Constraint reports projection failure at simulator-chosen calls (a legal outcome callers must handle); F5 - extreme-draw bursts through hook H1. Judged: valid-state sampler successes, interpolated states, every state of a successful geodesic (projected, atlas) and every vertex of a reported path satisfy the constraint within tolerance; consecutive geodesic states are at most lambda*delta apart and a successful geodesic ends within delta of its target (projected, atlas).",
+   note="Raw StateSampler outputs are judged only where a failure cannot legitimately occur (compact manifold inside the bounds, no injected or observed projection failure, no extreme-draw burst): the StateSampler interface cannot report a failed projection and the samplers clamp to the bounds after projecting, so elsewhere off-manifold raw samples exist on the unchanged tree; they are counted by cause in evidence (DESIGN App. B.8) and the valid-state sampler is what is judged there. Trusted: the closed-form constraint functions and Jacobians of the harness.",
+   technique="deterministic simulation: seeded histories with projection-failure and RNG-draw fault injection, cancellation of planners on top, shrinking + replay"),
  "C09": dict(engine="iosim", cat="fault_enumeration", ref="DESIGN.md 4/C09",
    text="Fault enumeration on the stream seam: generated state sets and planner-data graphs (geometric, and with controls and durations) over generated nested state spaces (R^n, SO(2), SO(3), SE(2), SE(3), time, discrete, weighted compounds up to depth 3) are stored through a simulated ostream and loaded through a simulated istream. Fault-free: the loaded set / graph must equal the original element by element (equalStates and bitwise serialisation, tags, start/goal marks, edge weights, controls, durations). Faulted: truncation at EVERY byte offset of every generated archive (enumerated), short reads of 1/2/7 bytes per refill (must be invisible), disk full on the write side at sampled offsets, overwritten archive marker, loading into a space with a different signature: the load must be reported (false / WARN-ERROR message) and what the object then holds must be an exact prefix of the original; no exception may escape; ASan/UBSan clean.",
    note="Trusted: the harness streambufs and comparison code. 'Reported' for StateStorage (void load) means a WARN/ERROR log message. Leaks on the rejected path are outside the statement (LSan off). In-memory copy/clone/serialize/reals/partial-copy round trips are a rider on the simulated state stream (pure functions). A streambuf that throws is not among the corruptions the statement lists and is not injected.",
@@ -89,7 +93,7 @@ def main():
              kind_free_text="termination-condition histories under the seeded scheduler and simulated clock vs a reference model"),
         dict(name="concsim", path="engines/concsim.cpp", serves_properties=["C19"],
              kind_free_text="thread-safe surface under a seeded serial order in a TSan build (hand-off invisible to TSan)"),
-        dict(name="rngsim", path="engines/rngsim.cpp", serves_properties=["C08", "C15"],
+        dict(name="rngsim", path="engines/rngsim.cpp", serves_properties=["C08", "C15", "C16"],
              kind_free_text="sampler histories under a simulator-owned random stream: seed + extreme-draw bursts through hook H1"),
         dict(name="iosim", path="engines/iosim.cpp", serves_properties=["C09"],
              kind_free_text="store/load of state sets and planner data through simulated streams with enumerated truncation and sampled write/substitution faults"),
